@@ -26,7 +26,8 @@ RULE = ('designed networks whose OMS differ in amplifier bands: shipped multiban
         'networks with single-band links, single-band meshes with narrower-band amplifier models on some links; plus '
         'random sets of 2..8 spectrum maps of different extents with occupied slots passed to grid alignment. '
         'Non-trivial: a network whose OMS do not all have the same common band, or a map set with >=2 different '
-        'extents. Distinct: hash of (topology, library) / of the map set.')
+        'extents. Distinct: hash of (topology, library) / of the map set.'
+        ' Also lines that end on a transceiver: point-to-point links without ROADMs (some without any amplifier) and a transceiver attached to a ROADM through a line.')
 ASSUMPTIONS = ['the slots within one grid step (6.25 GHz) of a band edge are not judged',
                'amplifier bands are read from the loaded library']
 REQUIRED_COUNTERS = {'oms_lists_built': 20, 'oms_checked': 100, 'bitmap_invariant_evaluations': 200,
